@@ -382,4 +382,5 @@ def cfg_summary(spec: dict) -> dict:
             "cutoff": int(any(w[0] == "cutoff" for w in spec.get("wrappers", []))),
             "wcount": sum(1 for w in spec.get("wrappers", []) if w[0] in ("count", "cutoff", "precision")),
             "idlecheck": int(bool(spec.get("idlecheck", True))),
+            "manual": int((spec.get("drive") or ["run"])[0] != "run"),
             "name": spec.get("name", "")}
